@@ -167,6 +167,19 @@ def IntClass.set (k : IntClass) (s : Str) : SetRes Int :=
   | some v => k.setValue v
   | none => .error
 
+/-- `conf.SocketTimeout.setValue(v)`: a validator whose verdict depends on ANOTHER variable,
+`supybot.drivers.poll` (a float, given exactly as `pn / pd`, `pd > 0`): rejected when `v < poll` or
+`v < 1`, before anything is stored; otherwise `PositiveInteger.setValue`. -/
+def socketTimeoutSetValue (pn pd : Nat) (v : Int) : SetRes Int :=
+  if v * (pd : Int) < (pn : Int) ∨ v < 1 then .error else IntClass.pos.setValue v
+
+/-- `SocketTimeout.set(s)` (= `Integer.set`: `self.setValue(int(s))`) -/
+def socketTimeoutSet (pn pd : Nat) (s : Str) : SetRes Int :=
+  if intUnmodelled s then .unm else
+  match pyInt s with
+  | some v => socketTimeoutSetValue pn pd v
+  | none => .error
+
 def digitChar (d : Nat) : Char := Char.ofNat (48 + d)
 
 /-- decimal digits, least significant first (`fuel` > number of digits) -/
